@@ -82,6 +82,19 @@ def make_envelope(n, prios, reach=False):
     return fn
 
 
+def colliding_names(prio):
+    """Two source ids whose Proposal hashes land in the same slot of a small set (PYTHONHASHSEED is fixed), so that the
+    iteration order of the proposal bucket is the insertion order: any code that depends on set order becomes history-dependent."""
+    seen = {}
+    for i in range(200):
+        n = f"actor{i}"
+        k = hash((prio, n)) & 7
+        if k in seen and k < 6:
+            return seen[k], n
+        seen.setdefault(k, n)
+    return "A", "B"
+
+
 def make_history(order, shapes, eq_prio=False, expiry=True):
     """Two actors A (prio 2) and B (prio 1, or 2 with eq_prio).  `order` is a tuple of steps out of
     'A', 'B', 'A0' (an older proposal of A, later replaced), 'B0'.  The final live set is {A, B}.
@@ -97,11 +110,12 @@ def make_history(order, shapes, eq_prio=False, expiry=True):
         else:
             ctA = ctB = 0.0
         pb = 2 if eq_prio else 1
-        props = {"A": mkp(ex, "A", "A", 2, ctA, shapes.get("A")), "B": mkp(ex, "B", "B", pb, ctB, shapes.get("B"))}
+        nA, nB = colliding_names(2) if eq_prio else ("A", "B")
+        props = {"A": mkp(ex, "A", nA, 2, ctA, shapes.get("A")), "B": mkp(ex, "B", nB, pb, ctB, shapes.get("B"))}
         if "A0" in order:
-            props["A0"] = mkp(ex, "A0", "A", 2, 0.0, shapes.get("A0"))
+            props["A0"] = mkp(ex, "A0", nA, 2, 0.0, shapes.get("A0"))
         if "B0" in order:
-            props["B0"] = mkp(ex, "B0", "B", pb, 0.0, shapes.get("B0"))
+            props["B0"] = mkp(ex, "B0", nB, pb, 0.0, shapes.get("B0"))
         m1 = Matryoshka(max_proposal_age=timedelta(seconds=60))
         m1.calculate_target_power(IDS, props["A"], sb, True)
         t1 = m1.calculate_target_power(IDS, props["B"], sb, True)
@@ -109,6 +123,9 @@ def make_history(order, shapes, eq_prio=False, expiry=True):
         for step in order:
             m2.calculate_target_power(IDS, props[step], sb, True)
         t2 = m2.get_target_power(IDS)
+        if t1 is None or t2 is None:
+            ex.check(False, "no target although must_return_power / proposals exist")
+            return
         ex.observe("t1", t1.as_watts())
         ex.observe("t2", t2.as_watts())
         ex.check(E(t1.as_watts()) == E(t2.as_watts()), f"target depends on history {order}")
@@ -117,6 +134,11 @@ def make_history(order, shapes, eq_prio=False, expiry=True):
         # expiry on the second instance: proposals older than 60 s stop counting, the others keep counting
         m2.drop_old_proposals(now)
         t3 = m2.calculate_target_power(IDS, None, sb, True)
+        if t3 is None:
+            ex.check(False, "no target returned after expiry although must_return_power=True")
+            return
+        g3 = m2.get_target_power(IDS)
+        ex.check(E(g3.as_watts()) == E(t3.as_watts()), "get_target_power stale after expiry")
         aliveA = ex.branch(E(now) - E(ctA) <= 60)
         aliveB = ex.branch(E(now) - E(ctB) <= 60)
         m3 = Matryoshka(max_proposal_age=timedelta(seconds=60))
@@ -167,6 +189,9 @@ def instances(tier):
         I("replace-A0AB-typ", "make_history", (("A0", "A", "B"), typ, False, False), "A replaced once (old one fully specified)", budget_s=120),
         I("replace-BB0-typ", "make_history", (("B0", "A", "B"), typ, False, False), "B replaced once", budget_s=120),
         I("expiry-AB-typ", "make_history", (("A", "B"), typ, False, True), "symbolic creation times and loop time", budget_s=120),
+        I("order-BA-eqprio-pp", "make_history", (("B", "A"), _sh(A="p", B="p"), True, False),
+          "equal priorities, two preferences, source ids colliding in the bucket's hash table, arrival order B,A vs A,B", budget_s=120),
+        I("order-BA-eqprio-typ", "make_history", (("B", "A"), _sh(A="plu", B="p"), True, False), "equal priorities, A full, B preference", budget_s=120),
     ]
     if tier == "quick":
         return out
